@@ -5,6 +5,22 @@ HERE = os.path.dirname(os.path.dirname(os.path.abspath(__file__)))
 ALL = ["C%02d" % i for i in range(1, 21)]
 
 CHECKS = {
+ "C01": dict(category="exploration", design_ref="DESIGN.md §4 C01", engine="corpus",
+   technique="runtime monitoring: 68 dynamic HTML sinks compiled through the real templ generator and Go compiler, rendered with hostile strings; rendered bytes re-read with the x/net/html HTML5 tokenizer and compared with the same component rendered with a benign sentinel (differential skeleton oracle); plus a strict five-entity decoder over templ.EscapeString in-process",
+   text="exploration: held on every (sink, string) pair generated: every byte, U+0000-U+07FF plus boundary sequences, all strings <=3 (quick) / <=4 (thorough) over a 21-symbol metacharacter alphabet, ~120 attack vectors with single-edit mutations, seeded random strings, and values longer than the 4 KB output buffer; 25k strings x 68 sinks = 1.7M compiled renders per quick run plus 3M escaper calls.",
+   note="Surrounding static markup is a fixed set of 68 templates (text, RCDATA, raw text, first/last/void/conditional attributes, spread string/*string/KeyValue, class containers, style, URL, JSONScript id/type/nonce, script nonces); C02's model programs render hostile metacharacter values in arbitrary generated markup as well. style values, templ.URL results and raw-text content are checked for structure only. Spread keys, templ.Raw and Safe* contents are trusted input."),
+ "C03": dict(category="exploration", design_ref="DESIGN.md §4 C03", engine="corpus",
+   technique="runtime monitoring: 19 JavaScript positions compiled through the real generator; rendered bytes tokenized (x/net/html) against a benign skeleton; lexical breakout monitors on each dynamic fragment; every dynamic script element / on* attribute evaluated separately in a fresh V8 context (v8go worker process) with recording sinks; the record is compared with the Go value's JSON",
+   text="exploration over (position, value) pairs: strings (every byte, code points, bounded-exhaustive <=3/<=4 over a 21-symbol JS/HTML alphabet, ~170 JS vectors with mutations, random, long) x shapes (string, named string, slices, maps incl. hostile keys, nested, struct, numbers incl. -0/1e308/+-2^53, bool, nil); 264k evaluations per quick run.",
+   note="Numbers compared as float64; integers beyond +-2^53 not generated; U+FFFD runs collapsed for invalid UTF-8; a raw U+2028/9 in a quoted literal is treated as ending it (pre-ES2019 semantics); templ.JSExpression / JSUnsafeFuncCall are trusted code. One defect fixed (backtick ${), one listed (object key \"__proto__\", five positions)."),
+ "C15": dict(category="exploration", design_ref="DESIGN.md §4 C15", engine="cli",
+   technique="runtime monitoring of the race-instrumented templ CLI on seeded directory trees x worker counts {1,2,3,8,16,64} x flag sets x GOMAXPROCS {1,2,16}: tree snapshot (sha256, mtime) before/after vs. in-process single-file reference generation; exit status; second-run idempotence; cross-worker equality; race-detector log; -lazy with explicit (also sub-second) mtimes",
+   text="exploration: 10 trees / 140 scenarios / 280 CLI runs per quick run (150 trees thorough) containing skipped and non-skipped directories, orphans inside and outside skipped directories, stale siblings, unparseable files and files whose generated code is not valid Go; 0 race reports; tens of distinct worker completion orders observed from debug logs.",
+   note="No delay hook (H5 not added): schedule diversity comes from worker count, GOMAXPROCS and file sizes and is measured, not forced. The reference shares parser/generator/gofmt code with the CLI by design (the check is about independence from tree, flags, workers and schedule; C02 checks the generator). -lazy is judged by its usage text: a template whose sibling is strictly newer is not processed."),
+ "C16": dict(category="exploration", design_ref="DESIGN.md §4 C16", engine="corpus",
+   technique="runtime monitoring: the real FSEventHandler(devMode) driven in-process on scratch packages; binaries built per version run with and without TEMPL_DEV_MODE; long-lived old binaries re-read updated text files; explicit mtimes; dev-mode bytes == normal bytes, and for edits classified 'no recompile' old binary + new text == freshly built binary",
+   text="exploration: a position x expression-type matrix (12 positions squared x 5 types = 431 edit pairs, enumerated completely) plus structure edits, random edit sequences up to 4 steps and hostile static text (quotes, backslash, backtick, newlines in raw elements, non-ASCII, C0/C1, invalid UTF-8); ~8k evaluations, ~250 windows classified 'no recompile' per quick run.",
+   note="Behaviour inside the runtime's 100 ms mtime window is not examined; error messages are not compared. One genuine defect fixed (HasChanged ignored changes of the generated Go code other than expression texts)."),
  "C06": dict(category="exploration", design_ref="DESIGN.md §4 C06", engine="in-proc",
    technique="runtime monitoring: parser.ParseString run in child processes over corpus-derived, truncated, mutated, generated and random inputs; per-input recover, per-thread CPU-time budget (soft, then solo re-run with a hard budget), ParseError position range check; reflective position oracle (bounds, order, line/col vs index, source prefix, name ranges) on every input the parse+generate+gofmt pipeline accepts",
    text="exploration: ~0.44M (quick) / ~5M (thorough) inputs: every .templ file and test input of the repository found at run time, every truncation (stride rule), token-dictionary mutations, CRLF conversion, multi-byte insertion before expressions, random bytes and token soups, truncations of generated programs; no panic, crash, over-budget parse, out-of-input error position or unfaithful range among them; ~140k expressions and ~170k ranges position-checked per quick run.",
